@@ -39,7 +39,7 @@ def parents_map(root):
     return pm
 
 
-@rule("R13.1", props=["C13", "C03"], floor=10, title="shared words are modified only by single RMWs or well-formed CAS retry loops; no load->store on a shared word through &self")
+@rule("R13.1", props=["C13", "C03", "C14"], floor=10, title="shared words are modified only by single RMWs or well-formed CAS retry loops; no load->store on a shared word through &self")
 def r13_1(ctx, rr):
     F = ctx.F()
     for b in F.fns():
@@ -263,7 +263,7 @@ def bitfield_updates(F, b, atomic):
     return out
 
 
-@rule("R13.2", props=["C13", "C05"], floor=6, title="atomic field/bit updates are confined to the element and agree with the non-atomic accessors")
+@rule("R13.2", props=["C13", "C05", "C06"], floor=6, title="atomic field/bit updates are confined to the element and agree with the non-atomic accessors")
 def r13_2(ctx, rr):
     F = ctx.F()
     b = F.one(r"^<bits::bit_field_vec::AtomicBitFieldVec<W, T> as traits::bit_field_slice::AtomicBitFieldSlice<W>>::set_atomic_unchecked$")
